@@ -128,6 +128,9 @@ fn operands() -> Vec<(String, Dual2, R)> {
         (vec!["w"], vec![1.5], vec![-2.0]),
         (vec!["y", "w"], vec![0.0, 1.0], vec![0.0, 0.0, 0.0, 6.0]),
         (vec![], vec![], vec![]),
+        // same number as (["x"], [3.0], [0.5]) carrying an extra variable with zero derivatives
+        (vec!["x", "y"], vec![3.0, 0.0], vec![0.5, 0.0, 0.0, 0.0]),
+        (vec!["w", "x"], vec![0.0, 3.0], vec![0.0, 0.0, 0.0, 0.5]),
     ];
     for v in vals {
         for (ns, g, h) in &layouts {
